@@ -42,8 +42,8 @@ def plan(tier, seed):
     for i in range(6 if tier == "quick" else 60):
         shards.append({"kind": "older", "pair": seed * 50021 + i, "seed": seed * 77 + i, "n": n, "time_cap": 30 if tier == "quick" else 600})
     shards.append({"kind": "directed", "seed": seed})
-    for i in range(2 if tier == "quick" else 16):
-        shards.append({"kind": "big", "seed": seed * 131 + i, "reps": 1 if tier == "quick" else 4})
+    for i in range(2 if tier == "quick" else 8):
+        shards.append({"kind": "big", "seed": seed * 131 + i, "reps": 1 if tier == "quick" else 3})
     return shards
 
 
